@@ -18,6 +18,7 @@ var (
 	guardCtx   *Ctx
 	guardSince [1024]int64 // unix nanoseconds of the open bracket in this slot, 0 = free
 	guardDesc  [1024]func() any
+	guardBeat0 [1024]int64 // heartbeat count (watch.go) when the bracket was opened: the limit is counted in time the process was alive
 	guardSeq   uint64
 )
 
@@ -33,6 +34,7 @@ func Guard(desc func() any) func() {
 		k := int(atomic.AddUint64(&guardSeq, 1) % uint64(len(guardSince)))
 		if atomic.CompareAndSwapInt64(&guardSince[k], 0, -1) {
 			guardDesc[k] = desc
+			atomic.StoreInt64(&guardBeat0[k], atomic.LoadInt64(&beats))
 			atomic.StoreInt64(&guardSince[k], now)
 			return func() { atomic.StoreInt64(&guardSince[k], 0) }
 		}
@@ -42,6 +44,7 @@ func Guard(desc func() any) func() {
 
 func StartGuardWatch(c *Ctx) {
 	guardCtx = c
+	startHeartbeat()
 	go func() {
 		for {
 			time.Sleep(10 * time.Second)
@@ -49,6 +52,9 @@ func StartGuardWatch(c *Ctx) {
 				t := atomic.LoadInt64(&guardSince[k])
 				if t <= 0 || time.Since(time.Unix(0, t)) < GuardLimit {
 					continue
+				}
+				if atomic.LoadInt64(&beats)-atomic.LoadInt64(&guardBeat0[k]) < int64(GuardLimit/(100*time.Millisecond)) {
+					continue // the process itself was stalled for part of that time (see ParForWatched)
 				}
 				buf := make([]byte, 1<<20)
 				n := runtime.Stack(buf, true)
